@@ -81,4 +81,52 @@ theorem mania_perf_from_attrs_total (a : Attrs R) (mods : Nat) (take : Option Na
   rw [mania_calculate_eq_formula_of_generated_state]
   exact ⟨_, rfl, rfl, rfl⟩
 
+/-! ## taiko (file bytes) -/
+
+section taiko
+variable {R : Type} [FOps R] [NumOps R] [PPOps R] (O : Rosu.PipelineTaiko.TOps R)
+
+/-- **`perf_map_path_eq_attrs_path`** (taiko, every arithmetic) -/
+theorem taiko_perf_map_path_eq_attrs_path (A : SecArith R) (fuel : Nat) (bytes : List UInt8) (mods : Nat)
+    (rate take : Option Nat) (hw : R) (prio : Prio) (b : TaikoB R) (a : TaikoAttrs R)
+    (h : taikoDifficultyAttrs O A fuel bytes mods rate take hw = .ok a) :
+    taikoPerfFromMap O A fuel bytes mods rate take hw prio b = .ok (taikoPerfFromAttrs a mods take prio b) := by
+  unfold taikoPerfFromMap
+  rw [h]
+  rfl
+
+/-- **`perf_embeds_oneshot_difficulty`** (taiko) -/
+theorem taiko_perf_embeds_oneshot_difficulty (A : SecArith R) (fuel : Nat) (bytes : List UInt8) (mods : Nat)
+    (rate take : Option Nat) (hw : R) (prio : Prio) (b : TaikoB R) (p : TaikoPerfAttrs R)
+    (h : taikoPerfFromMap O A fuel bytes mods rate take hw prio b = .ok (.ok p)) :
+    taikoDifficultyAttrs O A fuel bytes mods rate take hw = .ok p.difficulty := by
+  unfold taikoPerfFromMap at h
+  cases hd : taikoDifficultyAttrs O A fuel bytes mods rate take hw with
+  | ok a =>
+    rw [hd] at h
+    simp only [taikoOutMap, Rosu.PipelineTaiko.Out.ok.injEq] at h
+    unfold taikoPerfFromAttrs at h
+    cases hf : taikoFull stdSpecial a (taikoSettingsOf mods take prio) b with
+    | panic => rw [hf] at h; cases h
+    | ok r =>
+      rw [hf] at h
+      simp only [GenState.Res.map, GenState.Res.ok.injEq] at h
+      subst h
+      rfl
+  | ioError => rw [hd] at h; cases h
+  | notTaiko m => rw [hd] at h; cases h
+  | panic => rw [hd] at h; cases h
+  | fuel => rw [hd] at h; cases h
+
+/-- the attributes path never fails for taiko and is the formula at the generated state (C12c) -/
+theorem taiko_perf_from_attrs_total (a : TaikoAttrs R) (mods : Nat) (take : Option Nat) (prio : Prio) (b : TaikoB R) :
+    ∃ p, taikoPerfFromAttrs a mods take prio b = .ok p ∧ p.difficulty = a ∧
+      p.out = PerfCalc.taikoCalculate stdSpecial a (taikoSettingsOf mods take prio).mods
+        (taikoStateOf (taikoGenRaw (taikoCfgOf a (taikoSettingsOf mods take prio)) b).state) := by
+  unfold taikoPerfFromAttrs
+  rw [taiko_calculate_eq_formula_of_generated_state]
+  exact ⟨_, rfl, rfl, rfl⟩
+
+end taiko
+
 end Rosu.C04c
